@@ -210,7 +210,14 @@ func init() {
 		re := args[0].(native).v.(*regexp.Regexp)
 		cs, ok := x.semiOf(args[1])
 		if !ok {
-			x.abandon("regexp.ReplaceAllStringFunc on a symbolic subject that is not a semi-symbolic string")
+			d := fmt.Sprintf("%T", args[1])
+			if sv, ok := args[1].(sym); ok {
+				d = sv.t.Op
+				for _, a := range sv.t.Args {
+					d += " " + a.Op
+				}
+			}
+			x.abandon("regexp.ReplaceAllStringFunc on a symbolic subject that is not a semi-symbolic string (" + d + ")")
 		}
 		var ms [][]int
 		if hasSymChar(cs) {
